@@ -497,6 +497,17 @@ func buildRequest(q Req, rec *ReqRec) *http.Request {
 		Body:       http.NoBody,
 		RequestURI: q.Path,
 	}
+	// what net/http does for a request line that is not in canonical encoding: Path holds the decoded
+	// path, RawPath the bytes as sent.  The router matches on Path; a quarter of the requests (by a hash
+	// of the path) arrive with every byte percent-encoded in lower-case hex
+	if len(q.Path) > 1 && len(q.Path) < 200 && q.Path != "*" && hashStr(7, q.Path)%4 == 0 {
+		var sb strings.Builder
+		sb.WriteByte(q.Path[0])
+		for i := 1; i < len(q.Path); i++ {
+			fmt.Fprintf(&sb, "%%%02x", q.Path[i])
+		}
+		r.URL.RawPath = sb.String()
+	}
 	for k, v := range q.Hdr {
 		r.Header.Set(k, v)
 	}
@@ -689,6 +700,8 @@ func (o RouterOpts) muxOptions(e *Env, extra ...mux.Option) []mux.Option {
 			opts = append(opts, mux.WithAnyInterceptor("any"))
 		case "min5":
 			opts = append(opts, mux.WithInterceptor(interceptorFunc("min5"), "min5"))
+		case "":
+			opts = append(opts, mux.WithInterceptor(interceptorFunc("min5"), ""))
 		}
 	}
 	if o.URLDomain != "" {
